@@ -217,6 +217,30 @@ def run_kind(k, casefile, outdir, san=False):
             rc, err = p.returncode, p.stderr
         except subprocess.TimeoutExpired:
             rc, err = -9, "timeout (harness did not terminate)"
+    if rc != 0:
+        # the harness died in some case: re-run case by case so that one crash does not hide the others
+        texts = split_cases(casefile)
+        tmpd = out + ".d"
+        os.makedirs(tmpd, exist_ok=True)
+
+        def one(ix):
+            cf = os.path.join(tmpd, "c%d.cases" % ix)
+            open(cf, "w").write(texts[ix])
+            try:
+                p1 = subprocess.run([exe, cf], capture_output=True, text=True, timeout=120, env=env)
+                return p1.stdout, p1.returncode, p1.stderr
+            except subprocess.TimeoutExpired:
+                return "", -9, "timeout"
+        from concurrent.futures import ThreadPoolExecutor as _TPE
+        with _TPE(max_workers=8) as ex:
+            parts = list(ex.map(one, range(len(texts))))
+        with open(out, "w") as fo:
+            for (so, _, _) in parts:
+                fo.write(so if so.endswith("\n") or not so else so + "\n")
+        bad = [(i, r1, e1) for i, (so, r1, e1) in enumerate(parts) if r1 != 0]
+        if bad:
+            err = "case %s: exit %d\n%s" % (case_id(texts[bad[0][0]]), bad[0][1], bad[0][2][-3000:])
+        shutil.rmtree(tmpd, ignore_errors=True)
     rcd, o, e = sh([os.path.join(BUILD, "bin", "driver"), casefile, out], timeout=900)
     diffs = [l for l in o.split("\n") if l.startswith("DIFF ")]
     oks = [l for l in o.split("\n") if l.startswith("OK ")]
@@ -398,7 +422,7 @@ def sequential_part(prop, tier, seed, res):
                             res["violations"].append(dict(kind=cfg["kind"], casefile=f, case=cfg["id"], index=v.idx, msg=v.msg))
             except Exception as ex_:  # a monitor crash must never hide a result
                 res["broken"].append(dict(what="monitor", detail=repr(ex_)))
-            if prop in ("C18", "C19", "C20") and not r["crashed"]:
+            if prop in ("C18", "C19", "C20"):
                 try:
                     twin_part(prop, k, f, r["outfile"], rundir, res, known, seed)
                 except Exception as ex_:
